@@ -1,0 +1,26 @@
+//go:build verif
+
+package alpine
+
+// Machine-checked contracts for this package (checked by /verif/govc; see /verif/DESIGN.md).
+// This file contains comments only; it is compiled only under the build tag "verif".
+
+//@ func compareInt
+//@   comparator a ~ b                                     [C01]
+//@   ensures result == 0 ==> a == b                       [C01]
+//@   ensures result == (a < b ? -1 : (a > b ? 1 : 0))     [C03 C14]
+
+//@ func compareLetters
+//@   comparator a ~ b                                     [C01]
+
+//@ func compareSuffixes
+//@   comparator a ~ b                                     [C01]
+
+//@ func compareSuffixArrays
+//@   comparator a ~ b                                     [C01]
+
+//@ func compareNumericArraysNumeric
+//@   comparator a ~ b                                     [C01]
+
+//@ func (*Version).Compare
+//@   comparator v ~ other                                 [C01]
